@@ -32,10 +32,12 @@ type cfg struct {
 	Adv     string // none | othersig | wrongprev | ahead | sameprevdiff
 	Fault   bool   // one database write may fail (explorer choice)
 	Bound   int
+	H0      uint64 // rounds stored before the run (default 2)
+	Restart bool   // at quiescence do what a restart does (genesis Put + new store stack) and re-check
 }
 
 func (c cfg) String() string {
-	return fmt.Sprintf("%s/chained=%v/adversary=%s/fault=%v", c.Backend, c.Chained, c.Adv, c.Fault)
+	return fmt.Sprintf("%s/chained=%v/adversary=%s/fault=%v/h0=%d/restart=%v", c.Backend, c.Chained, c.Adv, c.Fault, c.H0, c.Restart)
 }
 
 type call struct {
@@ -45,10 +47,11 @@ type call struct {
 	ret bool
 }
 
-const h0 = 2
 
 func runOne(c cfg, devs []vrt.Dev, labels bool) *explore.Exec {
 	l := fix.Logger()
+	h0 := c.H0
+	restartNote := ""
 	var mon *fix.Monitor
 	var calls []*call
 	var final []*common.Beacon
@@ -142,6 +145,19 @@ func runOne(c cfg, devs []vrt.Dev, labels bool) *explore.Exec {
 			})
 		}
 		vrt.WaitIdle()
+		if c.Restart {
+			// what NewHandler does on a restart with the same store
+			if err := base.Put(ctx, chain.GenesisBeacon([]byte("genesis-seed"))); err != nil {
+				restartNote = "genesis Put failed: " + err.Error()
+			}
+			if ss2, err := beacon.NewSchemeStore(ctx, base, fix.Scheme(c.Chained)); err != nil {
+				restartNote = "NewSchemeStore failed: " + err.Error()
+			} else if as2, err := beacon.VerifNewAppendStore(ctx, ss2); err != nil {
+				restartNote = "newAppendStore failed: " + err.Error()
+			} else if lb, err := as2.Last(ctx); err != nil || lb.Round != h0+uint64(len(mon.Puts)) {
+				restartNote = fmt.Sprintf("after restart the head is %v (%v), expected %d", lb, err, h0+uint64(len(mon.Puts)))
+			}
+		}
 		_ = base.Cursor(ctx, func(ctx context.Context, cur chain.Cursor) error {
 			for b, err := cur.First(ctx); b != nil && err == nil; b, err = cur.Next(ctx) {
 				final = append(final, fix.CopyBeacon(b))
@@ -238,12 +254,27 @@ func runOne(c cfg, devs []vrt.Dev, labels bool) *explore.Exec {
 			}
 		}
 	}
-	// (f) final content = initial + write log
-	if len(final) != h0+1+len(mon.Puts) {
-		add("final-content", "cursor scan at quiescence returns %d beacons, expected %d (0..%d + %d writes)", len(final), h0+1+len(mon.Puts), h0, len(mon.Puts))
+	if restartNote != "" {
+		add("restart", "%s", restartNote)
+	}
+	// (f) final content = initial + write log (the ring keeps the newest window of it)
+	if c.Backend == "memdb" && int(h0)+1+len(mon.Puts) > 10 {
+		head := h0 + uint64(len(mon.Puts))
+		if len(final) != 10 {
+			add("ring-window", "ring holds %d beacons %v, expected the newest 10 up to round %d", len(final), rounds(final), head)
+		} else {
+			for i, f := range final {
+				if f.Round != head-9+uint64(i) {
+					add("ring-window", "ring holds %v, expected the newest window %d..%d", rounds(final), head-9, head)
+					break
+				}
+			}
+		}
+	} else if len(final) != int(h0)+1+len(mon.Puts) {
+		add("final-content", "cursor scan at quiescence returns %d beacons, expected %d (0..%d + %d writes)", len(final), int(h0)+1+len(mon.Puts), h0, len(mon.Puts))
 	} else {
 		for i, w := range mon.Puts {
-			f := final[h0+1+i]
+			f := final[int(h0)+1+i]
 			if f.Round != w.Round || !bytes.Equal(f.Signature, w.Signature) {
 				add("final-content", "round %d read back differs from what was written", w.Round)
 			}
@@ -282,9 +313,13 @@ func main() {
 				if be != "memdb" {
 					b -= 2
 				}
-				cfgs = append(cfgs, cfg{be, ch, a, false, b})
+				cfgs = append(cfgs, cfg{be, ch, a, false, b, 2, false})
 				if a == "none" || a == "replay" {
-					cfgs = append(cfgs, cfg{be, ch, a, true, b})
+					cfgs = append(cfgs, cfg{be, ch, a, true, b, 2, true})
+				}
+				if be == "memdb" && (a == "none" || a == "replay") {
+					// ring at capacity: 0..9 stored, the run pushes it over; then a restart
+					cfgs = append(cfgs, cfg{be, ch, a, false, b - 1, 9, true})
 				}
 			}
 		}
